@@ -13,7 +13,9 @@ CLAIM = {
           "when it is large enough, and the reused buffer answers every request script like a fresh one (model tied to the code by Reset/ReadN scripts through the hook). Lifted to the decoder (C08_decode_buffer_independent, C08_fresh_decoders_agree): in the decoder model one refill delivers min(buffer size, "
           "what the reader holds), so the buffer size decides how the stream reaches the decoder; two decoders whose option sets differ in the buffer size only, however much "
           "of the stream each has already buffered, return the same FIT (headers, messages, CRC) and stay related, or errors of one class -- relational proof through every "
-          "function of the decoder model. Arbitrary chunk plans directly under Decode and the reader-failure clause are decided per run by the Go oracle (chunked vs "
+          "function of the decoder model. The decoder model's own read layer meets the very specification proved of ReadN over any chunking reader "
+          "(C08_decoder_reads_are_stream_reads: the next n bytes or an end-of-stream error iff fewer remain), so the two layers meet at one specification. "
+          "Arbitrary chunk plans directly under Decode, CheckIntegrity-rewind-Decode under fragmentation and the reader-failure clause are decided per run by the Go oracle (chunked vs "
           "contiguous event logs of Decode; count and verdict of CheckIntegrity, also with a reader that returns all bytes together with io.EOF). The error KIND on truncation depends on the chunking "
           "(known finding eof_kind_depends_on_chunking, pinned by TestDecodeMessageData).",
   "note": NOTE_COMMON + " io.ReadAtLeast and the io.Reader contract (0 < n <= len(p) unless EOF/error) are modelled, not verified; hook commit in MANIFEST.hooks."}
